@@ -9,6 +9,7 @@ import (
 	"pgregory.net/rapid"
 
 	"verif/harness/api"
+	"verif/harness/cold"
 	"verif/harness/ev"
 	"verif/harness/gen"
 	"verif/harness/hook"
@@ -18,7 +19,7 @@ import (
 
 func TestMain(m *testing.M) {
 	time.Local = time.UTC
-	ev.Describe("for each of the 31 reply-bearing operations: replies with a correct header and a payload assembled field by field from classes (in-domain random, sentinels, echo match/mismatch, out-of-domain: boolean 2..255, non-decimal nibble in any nibble, month 0/13, day 0/32/Feb-30, hour 24+, minute/second 60+, HH:mm 24:01/23:60/25:00), noise in unused bytes; plus sweeps: every payload offset x all 256 byte values on a valid base reply, all 2^16 byte pairs of every HH:mm field, every calendar day of 400 years and every invalid month/day pattern per date field (thorough: all 10^8 BCD patterns of a date field and all 10^6 hhmmss patterns), non-decimal nibbles in every nibble position. Oracle: the independent protocol model's three-valued outcome (exact value / nil / must-fail / fail-or-zero). Non-trivial = expected result non-nil with a non-zero payload field, or a sentinel / out-of-domain class; distinct = distinct (operation, request echo, reply bytes).",
+	ev.Describe("clients with and without debug output, configured controllers with every kind of configured time zone; cold start: fresh processes whose first reply of each type is decoded by 2..16 goroutines at once; for each of the 31 reply-bearing operations: replies with a correct header and a payload assembled field by field from classes (in-domain random, sentinels, echo match/mismatch, out-of-domain: boolean 2..255, non-decimal nibble in any nibble, month 0/13, day 0/32/Feb-30, hour 24+, minute/second 60+, HH:mm 24:01/23:60/25:00), noise in unused bytes; plus sweeps: every payload offset x all 256 byte values on a valid base reply, all 2^16 byte pairs of every HH:mm field, every calendar day of 400 years and every invalid month/day pattern per date field (thorough: all 10^8 BCD patterns of a date field and all 10^6 hhmmss patterns), non-decimal nibbles in every nibble position. Oracle: the independent protocol model's three-valued outcome (exact value / nil / must-fail / fail-or-zero). Non-trivial = expected result non-nil with a non-zero payload field, or a sentinel / out-of-domain class; distinct = distinct (operation, request echo, reply bytes).",
 		"process zone pinned to UTC (zones are C13's subject)",
 		"two-digit system-date years 69..99 and PINs above 999999 on the wire are outside every stated domain: those fields are not judged",
 		"year 0000 dates and 0001-01-01 are not judged")
@@ -137,15 +138,15 @@ func genCase(t *rapid.T) replyCase {
 		op = "GetDevice"
 	}
 	call := spec.Call{Op: op, Serial: gen.Serial(t), Card: gen.U32(t, "req.card"), Index: gen.U32(t, "req.index"), Profile: gen.U8(t, "req.profile")}
-	cfg := hook.ClientCfg{}
+	cfg := hook.ClientCfg{Debug: gen.Debug(t, "debug")}
 	if rapid.Bool().Draw(t, "has_broadcast") {
 		cfg.HasBroadcast, cfg.BroadcastIP, cfg.BroadcastPort = true, [4]byte{192, 168, 1, 255}, gen.Port(t, "bport")
 	}
 	switch rapid.IntRange(0, 3).Draw(t, "device") {
 	case 1:
-		cfg.Devices = []hook.DeviceCfg{{Name: "Alpha", Serial: call.Serial, HasAddr: true, IP: [4]byte{10, 1, 2, 3}, Port: gen.Port(t, "cport"), Protocol: rapid.SampledFrom([]string{"udp", "tcp"}).Draw(t, "proto")}}
+		cfg.Devices = []hook.DeviceCfg{{Name: "Alpha", Serial: call.Serial, HasAddr: true, IP: [4]byte{10, 1, 2, 3}, Port: gen.Port(t, "cport"), Protocol: rapid.SampledFrom([]string{"udp", "tcp"}).Draw(t, "proto"), TZ: gen.DeviceTZ(t, "tz"), ViaNew: rapid.Bool().Draw(t, "via_new")}}
 	case 2:
-		cfg.Devices = []hook.DeviceCfg{{Name: "Beta", Serial: call.Serial}}
+		cfg.Devices = []hook.DeviceCfg{{Name: "Beta", Serial: call.Serial, TZ: gen.DeviceTZ(t, "tz"), ViaNew: rapid.Bool().Draw(t, "via_new")}}
 	case 3:
 		cfg.Devices = []hook.DeviceCfg{{Name: "Other", Serial: call.Serial ^ 1, HasAddr: true, IP: [4]byte{10, 1, 2, 4}, Port: 60000, Protocol: "udp"}}
 	}
@@ -232,7 +233,7 @@ func sweepOffsets(yield func(replyCase) bool) {
 
 // bulk sweeps over multi-byte field patterns (not hashed: distinct by construction)
 func TestSweeps(t *testing.T) {
-	if ev.Replaying() {
+	if ev.Replaying() || cold.Scenario() != "" {
 		t.Skip()
 	}
 	stop := false
@@ -536,8 +537,47 @@ func props() []rp.Prop {
 		rp.P[history]{Name: "history", Checks: ev.Pick(20000, 2000000) / ev.Shards(), Gen: genHistory, Check: checkHistory},
 		rp.P[replyCase]{Name: "reply", Checks: ev.Pick(120000, 6000000) / ev.Shards(), Gen: genCase, Sweep: sweepOffsets, Check: checkReply},
 		rp.P[replyCase]{Name: "sweep", Check: checkReply},
+		cold.Prop{Name: "cold", Scenario: "replies", N: ev.Pick(24, 480) / ev.Shards()},
 	}
 }
 
-func TestC02(t *testing.T)    { rp.RunAll(t, props()...) }
+func TestC02(t *testing.T) {
+	if cold.Scenario() != "" {
+		t.Skip("cold-start child")
+	}
+	rp.RunAll(t, props()...)
+}
+
+// TestColdChild (fresh child process only, see harness/cold): the first reply of every type that this process decodes
+// is decoded by a group of goroutines released together, each on its own client; every result is judged by the
+// ordinary oracle.
+func TestColdChild(t *testing.T) {
+	if cold.Scenario() == "" {
+		t.Skip("cold-start child only")
+	}
+	k := cold.Index()
+	g := []int{2, 3, 4, 8, 12, 16}[k%6]
+	n := 0
+	ops := sweepOps()
+	for i := range ops {
+		op := ops[(i+k)%len(ops)]
+		call, reply := base(op, 405419896)
+		cfg := hook.ClientCfg{}
+		if k%3 == 1 {
+			cfg.Devices = []hook.DeviceCfg{{Name: "Alpha", Serial: call.Serial, HasAddr: true, IP: [4]byte{10, 1, 2, 3}, Port: 60000, Protocol: "udp"}}
+		}
+		fails := make([]*rp.Fail, g)
+		cold.Release(g, func(w int) {
+			cold.Stagger((w * (1 + k%5)) % 61)
+			fails[w], _ = decide(replyCase{Call: call, Cfg: cfg, Reply: reply})
+		})
+		for _, f := range fails {
+			n++
+			if f != nil {
+				cold.Report(f.Fingerprint, f.Msg, replyCase{Call: call, Cfg: cfg, Reply: reply})
+			}
+		}
+	}
+	cold.Done(n)
+}
 func TestReplay(t *testing.T) { rp.ReplayAll(t, props()...) }
